@@ -39,6 +39,7 @@ func runC20(c *core.Ctx) {
 	c.Rule("C20.nearest", "A1/A3: AuthorizeAction: NoPrivileges ∨ admin ⇒ allow; ¬IsAbs ⇒ error; every index of the privilege table is path.Clean(action.Resource) or path.Dir of the previous key; a hit decides (allow iff p&priv≠0 ∨ p==All) and is never followed by another lookup; no hit ⇒ deny")
 	c.Rule("C20.write", "A2/A3: serveWriteLine reaches WritePoints only after AuthorizeAction(Action{DatabaseResource(db), WritePrivilege}) returned nil, and db is the value passed to WritePoints")
 	c.Rule("C20.mux", "A1: ServeMux.Handler answers a request whose path differs from cleanPath(path) with a redirect to the cleaned path, never with a registered handler; rewritePreview re-enters ServeHTTP")
+	c.Rule("C20.dbclean", "A1: DatabaseResource marks a name clean exactly when it contains no '/', joins the unmodified name then, and the '/'-free replacement with the dirty mark otherwise (a clean-marked name that still contains '/' is swallowed or split by path.Join); the empty name is the root resource")
 	c.Rule("C20.dbresource", "A12: DatabaseResource derives the resource element from the database name through injective steps only (distinct names ⇒ distinct resources)")
 
 	httpd := c.P.Pkg("services/httpd")
@@ -56,6 +57,7 @@ func runC20(c *core.Ctx) {
 	c20Write(c, httpd)
 	c20Mux(c, httpd)
 	c20DBResource(c, authp)
+	c20DBClean(c, authp)
 }
 
 var c20Wrappers = []string{"recovery", "logHandler", "requestID", "cors", "versionHeader", "gzipFilter", "jsonContent"}
@@ -958,3 +960,78 @@ func c20DBResource(c *core.Ctx, authp *packages.Package) {
 }
 
 var _ = regexp.MustCompile
+
+func c20DBClean(c *core.Ctx, authp *packages.Package) {
+	fn := c.Need("C20.dbclean", "auth", "", "DatabaseResource")
+	if fn == nil {
+		return
+	}
+	db := an.ParamName(fn.Decl.Type, 0)
+	slashFree := func(k string) (string, bool, bool) { // (atom name, negated, recognised)
+		k = strings.ReplaceAll(k, "'/'", `"/"`)
+		switch {
+		case k == `strings.Replace(`+db+`, "/", "_", -1) == `+db, k == db+` == strings.Replace(`+db+`, "/", "_", -1)`,
+			k == `strings.ReplaceAll(`+db+`, "/", "_") == `+db, k == db+` == strings.ReplaceAll(`+db+`, "/", "_")`:
+			return "hasSlash", true, true
+		case k == `strings.Contains(`+db+`, "/")`, k == `strings.ContainsRune(`+db+`, "/")`, k == `strings.ContainsAny(`+db+`, "/")`:
+			return "hasSlash", false, true
+		}
+		for _, f := range []string{"IndexByte", "Index", "IndexRune"} {
+			call := `strings.` + f + `(` + db + `, "/")`
+			switch k {
+			case call + " < 0", call + " == -1":
+				return "hasSlash", true, true
+			case "-1 < " + call:
+				return "hasSlash", false, true
+			}
+		}
+		return "", false, false
+	}
+	eng := &an.Engine{Prog: c.P,
+		Classify: func(a an.Atom) (string, bool) {
+			if a.Op == token.EQL && a.L == db && a.R == `""` {
+				return "empty", false
+			}
+			if n, neg, ok := slashFree(a.Key); ok {
+				return n, neg
+			}
+			return "", false
+		}}
+	paths, err := eng.Run(fn)
+	if err != nil {
+		c.Undecided("C20.dbclean", "DatabaseResource", fn.Decl.Pos(), "%v", err)
+		return
+	}
+	an.CheckTable(c, "C20.dbclean", "DatabaseResource", paths, an.Table{Atoms: []string{"empty", "hasSlash"},
+		Outcome: func(p *an.Path) string {
+			if len(p.Rets) != 1 {
+				return "?"
+			}
+			r := strings.ReplaceAll(p.Rets[0], "'/'", `"/"`)
+			repl := `strings.Replace(` + db + `, "/", "_", -1)`
+			repl2 := `strings.ReplaceAll(` + db + `, "/", "_")`
+			switch {
+			case r == "auth.databaseRootResource":
+				return "root"
+			case strings.Contains(r, "auth.cleanSuffix") && !strings.Contains(r, "auth.dirtySuffix"):
+				if strings.Contains(r, "("+db+" + auth.cleanSuffix)") || strings.Contains(r, "("+repl+" + auth.cleanSuffix)") || strings.Contains(r, "("+repl2+" + auth.cleanSuffix)") {
+					return "clean"
+				}
+			case strings.Contains(r, "auth.dirtySuffix") && !strings.Contains(r, "auth.cleanSuffix"):
+				if strings.Contains(r, "("+repl+" + auth.dirtySuffix)") || strings.Contains(r, "("+repl2+" + auth.dirtySuffix)") {
+					return "dirty(replaced)"
+				}
+				return "dirty(not replaced)"
+			}
+			return r
+		},
+		Expect: func(a map[string]bool) string {
+			switch {
+			case a["empty"]:
+				return "root"
+			case a["hasSlash"]:
+				return "dirty(replaced)"
+			}
+			return "clean"
+		}})
+}
